@@ -10,6 +10,7 @@ import (
 	"github.com/sirupsen/logrus"
 
 	"hop.computer/hop/common"
+	"hop.computer/hop/pkg/verifhook"
 )
 
 type sender struct {
@@ -382,6 +383,7 @@ func (s *sender) framesToSend(rto bool, startIndex int) int {
 // owning Reliable's close transition may call it, after rejecting producers.
 func (s *sender) Close() error {
 	if s.closed.CompareAndSwap(false, true) {
+		verifhook.Yield("tubes.sender.Close:cas")
 		s.RetransmitTicker.Stop()
 		close(s.sendQueue)
 		close(s.prioritySendQueue)
